@@ -109,3 +109,10 @@ Qed.
 (* one level: lower_tri is the J<=I sub-list of the level pattern *)
 Example ex1_lower : nonzero [(3, 3)] [[(0, 1); (1, 0); (2, 2); (1, 2)]] true = Some [(1, 0); (2, 2)].
 Proof. vm_compute. reflexivity. Qed.
+
+(* a history: query, assign, query -- the hypotheses of history_last_assignment are met *)
+Example ex_history :
+  set_ok ex3_bidx [5; 6; 7; 8] = true /\
+  hist_run ex3_bs ex3_bidx [1; -2; 3; 2] [OpQuery; OpSet [9; 9; 9]; OpQuery; OpSet [5; 6; 7; 8]; OpQuery] = [5; 6; 7; 8] /\
+  asmatrix ex3_bs ex3_bidx [5; 6; 7; 8] <> asmatrix ex3_bs ex3_bidx [1; -2; 3; 2].
+Proof. vm_compute. repeat split; discriminate. Qed.
